@@ -77,6 +77,9 @@
 #define CB1_ALIVE_WITH(n)  (__CPROVER_rw_ok(gh_cb1, CV_SP_BLOCK_SIZE) && gh_cb1->strong == (n) && SI(gh_cb1))
 #define THIS_ALIVE_WITH(n) (H_LIVE(this_) && H_CB(this_)->strong == (n) && SI(H_CB(this_)))
 
+#ifndef CV_HAS_tr_invoke      /* the tracer lambda is not even instantiated (nobody calls charge): "its resume function is the lambda" is then false */
+#define tr_invoke ((void (*)(SPV *, AWT *, cv_i8 *))0)
+#endif
 /* logical variables */
 struct cv_sp_cb *gh_cb0, *gh_cb1; FI *gh_obj0; cv_i64 gh_c0, gh_c1; int gh_pend0, gh_tr0, gh_alias; AWT *gh_slot0;
 
